@@ -369,6 +369,16 @@ pub mod openssl {
             #[verifier::external_body]
             pub fn ipaddress(&self) -> (r: Option<&[u8]>) ensures match r { Some(i) => self.ip@ == Some(i@), None => self.ip@ is None } { unimplemented!() }
         }
+        // the certificates of a PEM text, in order: X509::from_pem reads the first, stack_from_pem all of them
+        pub uninterp spec fn certs_of_pem(d: Seq<u8>) -> Seq<X509>;
+        impl X509 {
+            #[verifier::external_body]
+            pub fn from_pem(d: &[u8]) -> (r: Result<X509, ErrorStack>)
+                ensures match r { Ok(c) => certs_of_pem(d@).len() > 0 && certs_of_pem(d@)[0] == c, Err(_) => certs_of_pem(d@).len() == 0 } { unimplemented!() }
+            #[verifier::external_body]
+            pub fn stack_from_pem(d: &[u8]) -> (r: Result<Vec<X509>, ErrorStack>)
+                ensures r matches Ok(v) ==> v@ == certs_of_pem(d@) { unimplemented!() }
+        }
         impl X509 {
             // the subjectAltName extension, entry by entry (None when the certificate has none)
             #[verifier::external_body]
